@@ -108,7 +108,20 @@ def canon(v):
 _RETRIES = 0
 
 
-def measure(pipeline, n, limit=10):
+def take_prefix(L, n, how):
+    """the first n items, taken the way a program takes them: by index, by a Python slice, or with the element Ẏ"""
+    if isinstance(L, list):
+        return L[:n]
+    if how == "slice":
+        r = L[:n]
+    elif how == "Ẏ":
+        r = E.zero_slice(L, n, CTX)
+    else:
+        return [L[i] for i in range(n)]
+    return list(r) if not isinstance(r, list) else r
+
+
+def measure(pipeline, n, limit=10, how="index"):
     src = Source()
     L = LazyList(src, isinf=True)
     a, b = 1, 0
@@ -117,15 +130,15 @@ def measure(pipeline, n, limit=10):
         L = f(L)
         a, b = a * a2, a * b2 + b       # bound_compose: p1(p2(n)) <= a1*a2*n + a1*b2 + b1  (outer stage last)
     with alarm(limit):
-        out = [L[i] for i in range(n)] if not isinstance(L, list) else L[:n]
+        out = take_prefix(L, n, how)
     return out, src.pulls, (a, b)
 
 
 def o_lazy(inp):
-    pipeline, n = inp["pipeline"], inp["n"]
+    pipeline, n, how = inp["pipeline"], inp["n"], inp.get("take", "index")
     try:
         try:
-            out, pulls, (a, b) = measure(pipeline, n)
+            out, pulls, (a, b) = measure(pipeline, n, how=how)
         except Timeout:
             global _RETRIES
             _RETRIES += 1
@@ -133,7 +146,7 @@ def o_lazy(inp):
                 raise
             # a busy machine can stall a worker: believed only if it does not arrive within a minute either (the source's own
             # budget of 20000 pulls ends a real runaway long before that)
-            out, pulls, (a, b) = measure(pipeline, n, limit=60)
+            out, pulls, (a, b) = measure(pipeline, n, limit=60, how=how)
     except Timeout:
         return False, f"the first {n} items of {' | '.join(pipeline)} did not arrive within 60 s (after not arriving within 10 s)"
     except RuntimeError as ex:
@@ -158,6 +171,8 @@ def run(ctx, widen=False):
     scalar_out = [k for k in names if k in ("incr", "double", "add-scalar", "compare", "map-lambda", "filter-odd", "interleave", "cumsum", "deltas", "flatten-chunks",
                                              "uniquify", "prepend", "merge-front", "slice-from2", "slice-from-elem", "head-remove", "every-other", "uninterleave-0", "negate", "halve")]
     cases = [{"pipeline": [k], "n": n} for k in names for n in NS]
+    # the prefix taken by a slice / by the element Ẏ instead of by index, the empty prefix included (n = 0 must not touch the list)
+    cases += [{"pipeline": p, "n": n, "take": how} for p in [[]] + [[k] for k in names] for n in (0, 1, 3) for how in ("slice", "Ẏ")]
     pairs = [(a, b) for a in scalar_out for b in names]
     if not thorough:
         pairs = rng.sample(pairs, 120)
